@@ -19,7 +19,7 @@
 
 int write_bin(Memory *memory, FILE *out)
 {
-  uint32_t n;
+  uint64_t n; // 64 bit so the loop ends when high_address is 0xffffffff
 
   for (n = memory->low_address; n <= memory->high_address; n++)
   {
